@@ -9,10 +9,10 @@
 //!
 //! argv only (never the shell environment) carries the seed, see DESIGN.md.
 
-#[path = "../../sim/src/model.rs"]
+#[path = "../../../sim/src/model.rs"]
 #[allow(dead_code)]
 mod model;
-#[path = "../../sim/src/rng.rs"]
+#[path = "../../../sim/src/rng.rs"]
 #[allow(dead_code)]
 mod rng;
 
@@ -30,6 +30,25 @@ const TEXTS: &[&str] = &[
     "",
     "def f():\r    return 'ü'\r\n# end",
 ];
+
+/// Private files of the worker threads: each thread also builds its own lazily indexed
+/// `SourceFile` from one of these and queries it, so that any state the library shares
+/// between *different* files (not only between clones of one file) races under the scheduler.
+const PRIVATE_TEXTS: &[&str] = &["x = 1", "é = 'ü'", "\u{feff}a", "", "λ", "a\r\nb"];
+
+fn private_file_check(text: &str, who: usize) {
+    let sf = SourceFileBuilder::new(format!("private{who}.py"), text).finish();
+    let sc = sf.to_source_code();
+    assert_eq!(sc.line_count(), model::rows(text).len(), "private file {text:?} line_count (thread {who})");
+    for o in model::boundaries(text) {
+        let loc = sc.source_location(TextSize::new(o as u32));
+        assert_eq!(
+            (loc.row.get(), loc.column.get()),
+            model::row_col(text, o),
+            "private file {text:?} source_location({o}) (thread {who})"
+        );
+    }
+}
 
 #[derive(Clone, Copy, Debug)]
 enum Op {
@@ -143,9 +162,17 @@ fn main() {
         let n_ops = 4 + r.below(3) as usize;
         let ops = gen_ops(&mut r, n_ops);
         let (sf, ix, barrier) = (sf.clone(), ix.clone(), barrier.clone());
+        let private = PRIVATE_TEXTS[r.below(PRIVATE_TEXTS.len() as u64) as usize];
+        let private_first = r.chance(1, 2);
         handles.push(std::thread::spawn(move || {
             barrier.wait(); // start together so that the first touch really races
+            if private_first {
+                private_file_check(private, t);
+            }
             run_ops(text, sf, ix, &ops, t);
+            if !private_first {
+                private_file_check(private, t);
+            }
             // handles are dropped here, on this thread: the last drop lands on a scheduled thread
         }));
     }
